@@ -27,7 +27,8 @@ RULE = (
     "initial rows (0-2 owners, 1-3 parents, 0-4 children, 0-3 grandchildren, 0-3 tags + links) with a drawn subset of collections left unloaded; "
     "history of 1-10 pending changes that emits no SQL (add Parent/Child/Grandchild/Tag, set scalar, delete, re-parent via many-to-one or via a loaded "
     "collection, tag add/remove, owner change); one probe: ORM select (filter / by-FK / join / count / aggregate), select of ORM-mapped columns, legacy Query, "
-    "Session.get of absent/present identity, lazy load of an unloaded collection, refresh of an untouched object, bulk ORM UPDATE. "
+    "Session.get of absent/present identity, lazy load of an unloaded collection, refresh of an untouched object, bulk ORM UPDATE, Query.count, and the query-form dimension "
+    "{Session.execute, scalars, scalar} x {ORM entity, Core Table, text()} x {count(*), id list} on the table a pending change is about. "
     "Non-trivial: the control session (no autoflush, no flush) observes a different probe result or post-probe database than the autoflush session; "
     "distinct = canonical JSON of the case"
 )
@@ -36,7 +37,8 @@ ASSUMPTIONS = [
     "Session.get of a *present* identity and refresh/lazy-load subjects are restricted to objects that are not pending-deleted; refresh subjects additionally have no pending change of their own "
     "(refresh expires its subject before autoflushing - documented order - so 'as if flushed first' does not apply to the subject's own changes)",
     "lazy loads are probed on persistent objects only (lazy loads from pending objects do not autoflush by design)",
-    "plain Table selects are not probed: autoflush is documented for ORM-enabled constructs only",
+    "Core (Table / Column only) and text() statements sent through Session.execute / scalars / scalar are probed as well: the Session autoflushes for them too (issue #9809; "
+    "session.py 'unconditionally autoflush for Core statements'), although session_basics.rst only lists ORM-enabled constructs",
     "the explicit-flush twin is the specification; a defect common to flush() itself is out of scope here (C30/C36)",
 ]
 
@@ -307,12 +309,14 @@ def _ent(o):
 
 def _run_probe(w: _World, probe, classes):
     """returns a JSON-able canonical result"""
-    from sqlalchemy import func, select, update
+    from sqlalchemy import func, select, text, update
 
     fam, s, objs = w.fam, w.sess, w.objs
     P, C, G, T, O = fam.Parent, fam.Child, fam.Grandchild, fam.Tag, fam.Owner
     k = probe[0]
     a, b = probe[1], probe[2]
+    c = probe[3] if len(probe) > 3 else 0  # query form x statement kind x shape (probe "form")
+    form_kind = None
     forced_lazy = None
     if k == "target":
         # aim the probe at something the history changed (same decision in every world: it depends on harness bookkeeping only)
@@ -335,7 +339,10 @@ def _run_probe(w: _World, probe, classes):
             else:
                 kind, i = eff[1], eff[2]
                 choice = a % 4
-                if choice == 3 and a % 8 == 3 and (kind, i) in w.new and kind != "owner":
+                if (a + c) % 3:
+                    # two thirds of the aimed probes go through the query-form dimension on the affected table
+                    k, form_kind = "form", kind
+                elif choice == 3 and a % 8 == 3 and (kind, i) in w.new and kind != "owner":
                     k, a, b = "get", {"parent": 0, "child": 1, "tag": 2, "grandchild": 3}[kind], 1 + 3 * sorted(j for (kk, j) in w.new if kk == kind).index(i)
                 elif choice == 1 and kind in ("parent", "child"):
                     k, a = "cols", 1 if kind == "parent" else 0
@@ -375,6 +382,29 @@ def _run_probe(w: _World, probe, classes):
     elif k == "count":
         cls = [P, C, G, T, O, C, P, C][a % 8]
         out = s.scalar(select(func.count()).select_from(cls))
+    elif k == "qcount":
+        cls = [P, C, G, T, O, C, P, C][a % 8]
+        out = s.query(cls).count()
+    elif k == "form":
+        # {Session.execute, Session.scalars, Session.scalar} x {ORM entity, Core Table, text()} x {count(*), id list}
+        kind = form_kind or ["parent", "child", "grandchild", "tag", "owner", "child", "parent", "child"][a % 8]
+        cls = fam.classes[kind]
+        tbl = cls.__table__
+        how, stk = [("scalar", "core"), ("scalar", "text"), ("execute", "core"), ("scalars", "text"), ("execute", "text"), ("scalars", "core"),
+                    ("scalar", "orm"), ("execute", "orm"), ("scalars", "orm")][c % 9]
+        shape = ["count", "ids"][(c // 9) % 2]
+        if shape == "count":
+            stmt = {"orm": select(func.count()).select_from(cls), "core": select(func.count()).select_from(tbl), "text": text(f"SELECT count(*) FROM {kind}")}[stk]
+        else:
+            stmt = {"orm": select(cls.id).order_by(cls.id), "core": select(tbl.c.id).order_by(tbl.c.id), "text": text(f"SELECT id FROM {kind} ORDER BY id")}[stk]
+        if how == "execute":
+            out = [list(r) for r in s.execute(stmt)]
+        elif how == "scalars":
+            out = list(s.scalars(stmt))
+        else:
+            out = s.scalar(stmt)
+        label = f"form-{how}-{stk}"
+        classes.add(f"form-shape-{shape}")
     elif k == "agg":
         out = [list(r) for r in s.execute(select(C.parent_id, func.count(C.id), func.sum(C.x)).group_by(C.parent_id).order_by(C.parent_id))]
     elif k == "cols":
@@ -553,8 +583,8 @@ def _cases(draw):
         else:
             ops.append([k, draw(st.integers(0, 5)), draw(st.integers(0, 5))])
     case["ops"] = ops
-    pk = draw(st.sampled_from(["target"] * 14 + ["sel_p", "sel_c_fk", "sel_join", "sel_all", "sel_all", "count", "count", "agg", "cols", "cols", "m2m", "query", "get", "get", "get", "lazy", "lazy", "lazy", "lazy", "lazy", "lazy", "lazy", "lazy", "refresh", "bulk_upd", "bulk_upd"]))
-    case["probe"] = [pk, draw(st.integers(0, 11)), draw(_v)]
+    pk = draw(st.sampled_from(["target"] * 14 + ["form"] * 6 + ["qcount", "sel_p", "sel_c_fk", "sel_join", "sel_all", "sel_all", "count", "count", "agg", "cols", "cols", "m2m", "query", "get", "get", "get", "lazy", "lazy", "lazy", "lazy", "lazy", "lazy", "lazy", "lazy", "refresh", "bulk_upd", "bulk_upd"]))
+    case["probe"] = [pk, draw(st.integers(0, 11)), draw(_v), draw(st.sampled_from(list(range(18))))]
     return case
 
 
